@@ -16,8 +16,11 @@ from vlib import tlc, tlaval, gorun, core
 
 PROPS = ['C14']
 HARNESS = ['zz_vs_sched.go', 'zz_lifecycle_test.go']
-INSTR_GATE = {"files": {"session.go": {"funcs": ["Session.Close"]}}}
-SLUGS = ['no-close-callback-when-busy', 'open-nil-nil', 'flush-nil-after-close', 'write-after-teardown-faults']
+INSTR_GATE = {"files": {"session.go": {"funcs": ["Session.Close"], "noLock": ["Session.Close"]},
+                        "queue.go": {"funcs": ["queue.put"]}}}
+GATED = ('open-in-close-window', 'flush-races-unmap')      # witnesses that need the instrumented build
+SLUGS = ['no-close-callback-when-busy', 'open-nil-nil', 'flush-nil-after-close', 'write-after-teardown-faults',
+         'stream-op-races-unmap']
 
 INTERNAL = {'ExitSetErr', 'CloseCAS', 'CloseErr', 'CloseNotify', 'CloseChan', 'ClosePost', 'DeferredClose', 'LNext', 'TdConn',
             'TdTable', 'TdStream', 'TdWait', 'TdBm', 'TdQueue', 'SendPut'}
@@ -216,7 +219,7 @@ def report(ck, results, job, known, counts, witness=False):
         if r['harness']:
             counts['harness_problems'].append('%s: %s' % (r['name'], r['harness'][:200]))
             continue
-        if r['conforming'] and not r['violations']:
+        if r['conforming'] and not [v for v in r['violations'] if not v.get('known')]:
             conforming += 1
         if r['nd_diverged']:
             counts['nd_diverged'] += 1
@@ -227,7 +230,8 @@ def report(ck, results, job, known, counts, witness=False):
             if slug:
                 counts['known_hits'][slug] = counts['known_hits'].get(slug, 0) + 1
                 if ('C14', slug) in known:
-                    ck.known(slug, known[('C14', slug)] + ' [reproduced on real code: %s]' % v['detail'][:300])
+                    if counts['known_hits'][slug] == 1 and not any(slug in l for l in ck.known_printed):
+                        ck.known(slug, known[('C14', slug)] + ' [reproduced on real code: %s]' % v['detail'][:300])
                     continue
                 if counts['known_hits'][slug] > 2:      # class not listed: report two witnesses of it, not hundreds
                     continue
@@ -250,6 +254,8 @@ WITNESS = {
     'flush-nil-after-close': dict(streams=1, cb=[], steps=[('CloseCall', 0, 'c1'), ('SendCheck', 1, '')]),
     # both ends closed and torn down, then a write into the BufferWriter of a stream: SIGSEGV (staged in a child process)
     'write-after-teardown-faults': dict(streams=1, cb=[], gate='write-after-teardown', steps=[]),
+    # a Flush that has passed its state check is parked inside queue.put while Close + teardown unmap the queue (child process)
+    'stream-op-races-unmap': dict(streams=1, cb=[], gate='flush-races-unmap', steps=[]),
     'open-nil-nil': dict(streams=1, cb=[], gate='open-in-close-window', steps=[]),
 }
 
@@ -269,6 +275,7 @@ def witness_verdict(ck, prop, known, sched, r):
     other = [v for v in r['violations'] if not v.get('known')]
     if hit:
         if (prop, slug) in known:
+            ck.known_printed[:] = [l for l in ck.known_printed if (' %s: ' % slug) not in l]      # the witness line replaces a class hit
             ck.known(slug, known[(prop, slug)] + ' [witness replayed on real code: %s]' % hit[0]['detail'][:400])
         else:
             ck.violation('%s: %s' % (slug, hit[0]['detail']), {'mode': 'manual', 'schedule': sched, 'kind': hit[0]['kind'],
@@ -318,7 +325,7 @@ def run(prop, tier, seed, replay=None):
         job = {'mode': rep['mode'], 'schedules': [rep['schedule']], 'known': SLUGS, 'workers': 1, 'wait_ms': wait_ms}
         ck.cov['evaluations'] = 1
         ck.cov['distinct_nontrivial'] = 1
-        res = harness(ck, job, known, INSTR_GATE if rep.get('gate') == 'open-in-close-window' else None, 'replay')
+        res = harness(ck, job, known, INSTR_GATE if rep.get('gate') in GATED else None, 'replay')
         if res is not None:
             if rep['schedule']['name'].startswith('witness-'):
                 witness_verdict(ck, prop, known, rep['schedule'], res[0])
@@ -334,15 +341,15 @@ def run(prop, tier, seed, replay=None):
         return dict(streams=streams, cb=cb, closers=closers, atomic=atomic, maxsend=maxsend, maxpc=maxpc, accept=accept,
                     flush=flush, maxops=maxops)
     if quick:
-        fine_cfgs = [C([1], [], ['c1', 'c2'], F, 1, 0, F, F, 1), C([1], [1], ['c1'], F, 1, 0, F, F, 2)]
-        coarse = [C([1, 2], [2], ['c1'], T, 1, 1, T, F, 1), C([1], [], ['c1', 'c2'], T, 1, 0, F, T, 2)]
-        limit = 170
+        fine_cfgs = [C([1], [], ['c1', 'c2'], F, 0, 0, F, F, 0), C([1], [1], ['c1'], F, 1, 0, F, F, 2)]
+        coarse = [C([1, 2], [2], ['c1'], T, 1, 1, T, F, 1), C([1], [], ['c1', 'c2'], T, 1, 0, F, T, 1)]
+        limit = 110
     else:
-        fine_cfgs = [C([1], [], ['c1', 'c2'], F, 1, 0, F, F, 1), C([1], [1], ['c1'], F, 1, 0, F, F, 2),
-                     C([1, 2], [2], ['c1'], F, 1, 1, T, F, 2), C([1], [], ['c1', 'c2'], F, 1, 0, T, T, 3)]
-        coarse = [C([1, 2], [2], ['c1'], T, 1, 1, T, F, 2), C([1], [], ['c1', 'c2'], T, 1, 0, T, T, 3),
+        fine_cfgs = [C([1], [], ['c1', 'c2'], F, 0, 0, F, F, 0), C([1], [1], ['c1'], F, 1, 0, F, F, 2),
+                     C([1], [], ['c1', 'c2'], F, 1, 0, F, F, 1), C([1, 2], [2], ['c1'], F, 1, 1, T, F, 1)]
+        coarse = [C([1, 2], [2], ['c1'], T, 1, 1, T, F, 2), C([1], [], ['c1', 'c2'], T, 1, 0, T, T, 2),
                   C([1, 2], [1, 2], ['c1'], T, 2, 1, F, F, 2)]
-        limit = 1500
+        limit = 700
 
     # ---- design check of every interleaving (fine grained) and the gate witness run beside the replay
     fine_out, gate_out, graphs = [], [], {}
@@ -357,9 +364,13 @@ def run(prop, tier, seed, replay=None):
         # the same design without pruning: TLC must find the listed classes (the classifier is not vacuous)
         r = tlc.run('Lifecycle', 'mc.cfg', timeout=400, workers=2, extra_files={'mc.cfg': cfg_text(fine_cfgs[1], False, RAW_INVS)})
         fine_out.append(('unpruned', r))
+        # ... and the fault class: a Flush between its state check and queue.put, overtaken by Close + teardown
+        r = tlc.run('Lifecycle', 'mc.cfg', timeout=400, workers=2,
+                    extra_files={'mc.cfg': cfg_text(C([1], [], ['c1'], F, 0, 0, F, F, 1), False, 'NoFault')})
+        fine_out.append(('unpruned-fault', r))
 
     def gate_thread():
-        ws = [w for w in witness_schedules() if w['gate'] == 'open-in-close-window']
+        ws = [w for w in witness_schedules() if w['gate'] in GATED]
         job = {'mode': 'manual', 'schedules': ws, 'known': SLUGS, 'workers': 1, 'wait_ms': wait_ms}
         gate_out.append((ws, run_go(ck, job, INSTR_GATE, timeout=600)))
 
@@ -411,13 +422,13 @@ def run(prop, tier, seed, replay=None):
         all_scheds += scheds
         ck.log('TLC %s: %d states, %d edges, %d cover paths, %d chosen for replay (%.0fs)'
                % (describe(c), res.distinct, len(edges), total_paths, len(scheds), res.wall))
-    wits = [w for w in witness_schedules() if w['gate'] != 'open-in-close-window']
+    wits = [w for w in witness_schedules() if w['gate'] not in GATED]
 
     # the same behaviours at user level against the real epoll loop; peer severed in-process or SIGKILLed child process
     real_scheds, seen = [], set()
     cands = [s for s in all_scheds if any(st['a'] == 'PeerDies' for st in s['steps'])]
     rng.shuffle(cands)
-    n_in, n_child = (36, 8) if quick else (400, 60)
+    n_in, n_child = (24, 6) if quick else (300, 40)
     for s in cands:
         steps = [dict(a=x['a'], s=x['s'], t=x['t']) for x in s['steps'] if x['a'] in USER_LEVEL]
         key = json.dumps(steps) + s['role']
@@ -523,9 +534,12 @@ def run(prop, tier, seed, replay=None):
                 m = job_r['schedules'][0]
                 ck.sample({'real_loop_behaviour': brief(m), 'peer': m['peer'], 'survivor': m['role'], 'child_end': m['end']})
     for c, r in fine_out:
-        if c == 'unpruned':
-            ck.cov['design_counterexample_without_pruning'] = (r.violation or 'none') + (
+        if c in ('unpruned', 'unpruned-fault'):
+            key = 'design_counterexample_without_pruning' + ('' if c == 'unpruned' else '_fault')
+            ck.cov[key] = (r.violation or 'none') + (
                 ' kf=%s' % sorted(r.trace[-1][1].get('kf', [])) if r.violation and r.trace and isinstance(r.trace[-1][1], dict) else '')
+            if r.violation and r.trace:
+                ck.cov[key + '_trace'] = [l for l, _ in r.trace][1:]
             continue
         if r.violation:
             ck.inconc('TLC reports %s on the fine-grained design (%s), finding classes pruned: %s'
